@@ -1121,6 +1121,10 @@ class NginxVersionRange(VersionRange):
                 start, _, end = clauses.partition("-")
                 start_version = cls.version_class(start)
                 end_version = cls.version_class(end)
+                if start_version == end_version:
+                    # a range of a single version
+                    constraints.append(VersionConstraint(comparator="=", version=start_version))
+                    continue
                 vstart = VersionConstraint(comparator=">=", version=start_version)
                 vend = VersionConstraint(comparator="<=", version=end_version)
                 constraints.extend([vstart, vend])
